@@ -358,6 +358,11 @@ def main(argv=None):
 
     # 2. generated search
     specs = mod.plan(a.tier)
+    scale = float(os.environ.get('VERIF_SCALE', '1') or 1)
+    if scale != 1:
+        # development aid: shrink/grow the generated-case budget of every shard ('n' of the shard spec); the
+        # registered commands never set it
+        specs = [dict(sp, n=max(1, int(sp['n'] * scale))) if isinstance(sp.get('n'), int) else sp for sp in specs]
     if a.shards:
         specs = specs[:a.shards]
     jobs = [(modname, a.tier, seed, i, spec) for i, spec in enumerate(specs)]
